@@ -296,7 +296,7 @@ def run_check(pid, tier, seed=None, workers=None, quiet=False):
         out_lines.append("KNOWN-FINDING: property=%s %s [%s; seen %d times in this run]" % (pid, entry["description"], key, known_seen.get(key, 0)))
     replay_paths = []
     if new_violations:
-        rdir = os.path.join(VERIF, "replays")
+        rdir = os.environ.get("BBVERIF_REPLAY_DIR") or os.path.join(VERIF, "replays")
         os.makedirs(rdir, exist_ok=True)
         new_violations.sort(key=lambda k: -vio_counts[k])
         if len(new_violations) > 12:
@@ -346,7 +346,8 @@ def run_check(pid, tier, seed=None, workers=None, quiet=False):
         "wall_s": round(time.time() - t0, 2),
         "violations": len(new_violations),
     }
-    edir = os.path.join(VERIF, "evidence")
+    # evidence of runs against a scratch tree (BBVERIF_REPO set by tools/mutant.py) goes elsewhere
+    edir = os.environ.get("BBVERIF_EVIDENCE_DIR") or os.path.join(VERIF, "evidence")
     os.makedirs(edir, exist_ok=True)
     with open(os.path.join(edir, "%s.json" % pid), "w") as f:
         json.dump(evidence, f, indent=1, default=str)
